@@ -5,10 +5,11 @@
 (* generated transition, also on those that lead to an already known state.              *)
 (*                                                                                       *)
 (* NextR is Next with arguments pruned where the transcribed checks cannot look at them: *)
-(*  - a creator `as` different from the signer is rejected before any argument is used   *)
-(*    (after the denom-shape check), so one wrong creator per signer is tried;           *)
+(*  - a creator `as` that is neither the signer nor a granter of the signer is rejected  *)
+(*    before any argument is used (after the denom-shape check), so one such creator per *)
+(*    signer is tried, next to the signer itself and every granter of the signer;        *)
 (*  - amount / new admin are only read after the admin comparison succeeded, which needs *)
-(*    as = who and a stored denom; otherwise one value is tried.                          *)
+(*    an authorised signer and a stored denom; otherwise one value is tried.              *)
 (* The full Next is checked by the *_full configuration (thorough tier).                 *)
 EXTENDS TokenFactory
 CONSTANTS MaxMinted
@@ -16,16 +17,23 @@ FundsSmall == <<2, 1, 0>>       \* account 3 can never pay a creation fee, accou
 FundsBig   == <<2, 2, 1>>
 Other(a) == (a % Cardinality(Accounts)) + 1
 One(S) == {CHOOSE x \in S : TRUE}
-Read(who, as, d) == who = as /\ d \in DOMAIN denoms
+Read(who, as, d) == Authorised(who, as) /\ d \in DOMAIN denoms
+NoGrants == {{}}
+OneGrant == {{<<2, 1>>}}            \* account 2 lets account 1 sign for it (1 may act as 2; nobody else is delegated)
+SomeGrants == {{}, {<<2, 1>>}, {<<1, 2>>, <<1, 3>>}}
+Strangers(who) == {a \in Accounts \ {who} : <<a, who>> \notin grants}
+Creators(who) == {who} \cup {g \in Accounts : <<g, who>> \in grants}
+                 \cup (IF Strangers(who) = {} THEN {} ELSE One(Strangers(who)))
 NextR ==
-  \E who \in Accounts : \E as \in {who, Other(who)} :
+  \/ Reimport
+  \/ \E who \in Accounts : \E as \in Creators(who) :
      \/ \E sub \in SubsX : Create(who, as, sub)
      \/ \E d \in AllDenoms : \E amt \in (IF Read(who, as, d) THEN Amounts ELSE One(Amounts)) :
            Mint(who, as, d, amt) \/ Burn(who, as, d, amt)
      \/ \E d \in AllDenoms : \E new \in (IF Read(who, as, d) THEN NewAdmins ELSE {NoAdmin}) :
            ChangeAdmin(who, as, d, new)
      \/ \E d \in AllDenoms : SetMetadata(who, as, d)
-MCView == <<svars, nops>>
+MCView == <<svars, grants, nops>>
 Constr == /\ nops <= MaxOps
           /\ \A d \in AllDenoms : minted[d] <= MaxMinted
 =============================================================================
